@@ -72,7 +72,7 @@ func errClass(err error) string {
 		{"can not verify hash in block header", "block-hash"}, {"cannot verify transaction hash", "tx-hash"},
 		{"does not match receipt's hash", "receipt-txhash"}, {"len of transactions", "tx-receipt-count"},
 		{"expected block #", "succession-number"}, {"parent hash does not match", "succession-parent"},
-		{"state commitment mismatch", "root-check"}, {"does not match the expected root", "root-check"},
+		{"state commitment mismatch", "root-check"}, {"does not match the head's state root", "root-check"}, {"does not match the expected root", "root-check"},
 		{"unsupported block version", "version"}, {"cannot verify class hash", "class-hash"},
 		{"invalid Transaction", "tx-version"}, {"cannot calculate transaction hash", "tx-version"},
 	} {
@@ -135,6 +135,7 @@ func main() {
 		c.Finish(rule)
 	}
 	r.staleOldRoot()
+	r.crossingProbe()
 	rng := hx.NewRNG(c.Seed)
 	start := time.Now()
 	chains := 0
